@@ -38,6 +38,8 @@ pub struct CallCost {
     pub zero_cells: usize,
     /// structural items in the result: packets, sets, template records, field specifiers, records, cells
     pub units: usize,
+    /// largest number of zero-length fields in one cached template, before or after the call
+    pub zmax: usize,
 }
 
 fn cache_has_zero_len(p: &NetflowParser) -> bool {
@@ -45,6 +47,50 @@ fn cache_has_zero_len(p: &NetflowParser) -> bool {
         || p.v9_parser.options_templates.values().any(|t| t.scope_fields.iter().any(|f| f.field_length == 0) || t.option_fields.iter().any(|f| f.field_length == 0))
         || p.ipfix_parser.templates.values().any(|t| t.fields.iter().any(|f| f.field_length == 0))
         || p.ipfix_parser.options_templates.values().any(|t| t.fields.iter().any(|f| f.field_length == 0))
+}
+
+/// largest number of zero-length fields in any one cached template
+fn cache_zmax(p: &NetflowParser) -> usize {
+    let z9 = p.v9_parser.templates.values().map(|t| t.fields.iter().filter(|f| f.field_length == 0).count());
+    let z9o = p.v9_parser.options_templates.values().map(|t| t.scope_fields.iter().filter(|f| f.field_length == 0).count() + t.option_fields.iter().filter(|f| f.field_length == 0).count());
+    let zi = p.ipfix_parser.templates.values().map(|t| t.fields.iter().filter(|f| f.field_length == 0).count());
+    let zio = p.ipfix_parser.options_templates.values().map(|t| t.fields.iter().filter(|f| f.field_length == 0).count());
+    z9.chain(z9o).chain(zi).chain(zio).max().unwrap_or(0)
+}
+
+/// cells of the result that were decoded from no bytes at all (empty octet arrays / strings): the
+/// state-independent count of what the zero-length amplification finding produces
+fn empty_cells(res: &[NetflowPacket]) -> usize {
+    use netflow_parser::variable_versions::data_number::FieldValue;
+    let empty = |v: &FieldValue| match v {
+        FieldValue::Vec(x) => x.is_empty(),
+        FieldValue::String(x) => x.is_empty(),
+        _ => false,
+    };
+    let mut n = 0usize;
+    for e in res {
+        match e {
+            NetflowPacket::V9(v) => {
+                for f in &v.flowsets {
+                    if let netflow_parser::variable_versions::v9::FlowSetBody::Data(d) = &f.body {
+                        n += d.fields.iter().map(|r| r.values().filter(|(_, x)| empty(x)).count()).sum::<usize>();
+                    }
+                }
+            }
+            NetflowPacket::IPFix(v) => {
+                for f in &v.flowsets {
+                    use netflow_parser::variable_versions::ipfix::FlowSetBody as B;
+                    match &f.body {
+                        B::Data(d) => n += d.fields.iter().map(|r| r.values().filter(|(_, x)| empty(x)).count()).sum::<usize>(),
+                        B::OptionsData(d) => n += d.fields.iter().map(|r| r.values().filter(|(_, x)| empty(x)).count()).sum::<usize>(),
+                        _ => {}
+                    }
+                }
+            }
+            _ => {}
+        }
+    }
+    n
 }
 
 /// wire size of the cached templates the returned data sets were decoded with
@@ -128,6 +174,8 @@ pub fn result_units(res: &[NetflowPacket]) -> usize {
 
 /// Measure one parse_bytes call.
 pub fn measure(sut: &mut Sut, pi: usize, buf: &[u8]) -> CallCost {
+    let zero_before = cache_has_zero_len(&sut.parsers[pi]);
+    let zmax_before = cache_zmax(&sut.parsers[pi]);
     let scope = alloc::begin();
     let res = sut.parsers[pi].parse_bytes(buf);
     let m = alloc::end(scope);
@@ -172,13 +220,17 @@ pub fn measure(sut: &mut Sut, pi: usize, buf: &[u8]) -> CallCost {
             _ => {}
         }
     }
+    // templates may be replaced inside the call that used them: the result itself says how many
+    // cells came from no bytes
+    zero_cells = zero_cells.max(empty_cells(&res));
     let live_before_drop = alloc::live();
     drop(res);
     let live_after_drop = alloc::live();
     let result_bytes = live_before_drop.saturating_sub(live_after_drop);
     let cache_growth = m.live_delta - result_bytes as isize;
-    let zero = cache_has_zero_len(&sut.parsers[pi]);
-    CallCost { n: buf.len(), m, result_bytes, cache_growth, tails, npackets, has_ipfix, tmpl_wire, zero_len_templates: zero, zero_cells, units }
+    let zero = zero_before || cache_has_zero_len(&sut.parsers[pi]) || zero_cells > 0;
+    let zmax = zmax_before.max(cache_zmax(&sut.parsers[pi]));
+    CallCost { n: buf.len(), m, result_bytes, cache_growth, tails, npackets, has_ipfix, tmpl_wire, zero_len_templates: zero, zero_cells, units, zmax }
 }
 
 pub enum CostVerdict {
@@ -197,7 +249,10 @@ pub fn judge(c: &CallCost, stats: &mut CostStats) -> Result<CostVerdict, Div> {
     // 2. single-request bound: applies always
     // a vector of 24-byte maps, one per decoded one-byte cell, doubled once: 48 bytes per input
     // byte in one request even when the set is rejected at its end and the result discarded
-    let s_bound = S_FLOOR.max(64.0 * n).max(4.0 * r);
+    // Under templates with zero-length fields (listed amplification finding) one received byte can
+    // stand for a record of 1 + zmax cells, also in a set that is rejected at its end and discarded:
+    // the allowance is exactly that model's factor.
+    let s_bound = S_FLOOR.max(64.0 * n * (1.0 + c.zmax as f64)).max(4.0 * r);
     stats.max("single_request_over_bound", s / s_bound);
     if s > s_bound {
         return Err(div("cost/single-request", "exceeds", format!("one allocation request of {} bytes for a {}-byte buffer returning {} bytes of result (bound {})", c.m.max_single, c.n, c.result_bytes, s_bound as u64)));
